@@ -36,7 +36,7 @@ def run_impl(lines, ig):
 
 
 # ---- hunk ASTs with known geometry (independent of the parser) ----
-PAYLOADS = [b'', b'x', b'-- a/file', b'++ b/file', b'@@ -1 +1 @@', b' indented', b'\\ No newline at end of file', b'\r',
+PAYLOADS = [b'100%', b'%s %d', b'%(line)r', b'', b'x', b'-- a/file', b'++ b/file', b'@@ -1 +1 @@', b' indented', b'\\ No newline at end of file', b'\r',
             b'tab\there', b'\xff\x00', b'@@']
 
 
@@ -64,7 +64,7 @@ def gen_hunk(rng):
             break
     return dict(os=rng.choice([0, 1, 2, 10, 999999999999]), ms=rng.choice([0, 1, 3, 12, 5]), body=body, on=on, mn=mn,
                 omit_on=(on == 1 and rng.random() < 0.5), omit_mn=(mn == 1 and rng.random() < 0.5),
-                ctx=rng.choice([None, None, b'def f():', b'', b' two  spaces', b'@@ nested @@']),
+                ctx=rng.choice([None, None, b'def f():', b'', b' two  spaces', b'@@ nested @@', b'printf("%d", x);', b'%(line_num)d']),
                 markers=[(rng.randint(0, max(0, len(body) - 1)), rng.choice([b'\\ No newline at end of file',
                                                                              b'\t\\ No newline at end of file \t',
                                                                              b'\\ No newline at end of file\r']))
@@ -174,16 +174,17 @@ class HunksFam(Family):
                 if dmg == 'truncate':
                     dl = lines[:p]
                 elif dmg == 'foreign':
-                    dl = lines[:p] + [rng.choice([b'garbage', b'', b'\ttab', b'diff --git', b'\\ no newline'])] + lines[p:]
+                    dl = lines[:p] + [rng.choice([b'garbage', b'', b'\ttab', b'diff --git', b'\\ no newline', b'100% garbage', b'%s'])] + lines[p:]
                 else:
-                    dl = lines[:p] + [b'@@ -5,1 +5,1 @@'] + lines[p:]
+                    dl = lines[:p] + [rng.choice([b'@@ -5,1 +5,1 @@', b'@@ -5,1 +5,1 @@ printf("%d\\n", x);', b'@@ -1 +1 @@ 100%'])] + lines[p:]
                 yield dict(kind='damage-' + dmg, lines=[hx(x) for x in dl], ig=rng.random() < 0.5)
             # a body line of some hunk REPLACED by a line that is neither context, insert, delete nor the marker
             # (consecutive hunks, no separators): the parser must raise MalformedHunkError naming exactly that line
             cands = [(j, i) for j, h in enumerate(hs) for i in range(len(h['body']))]
             if cands:
                 j, i = rng.choice(cands)
-                foreign = rng.choice([b'', b'\t', b'\r', b'\t \t', b'garbage', b'diff --git a/x b/x', b'\\ no newline',
+                foreign = rng.choice([b'100% garbage', b'%s', b'%(line)r', b'%d%%', b'printf("%d\\n", x);', b'{0}', b'{line}',
+                                      b'', b'\t', b'\r', b'\t \t', b'garbage', b'diff --git a/x b/x', b'\\ no newline',
                                       b'\\No newline at end of file', b'\x0b', b'\xa0x', b'@ -1 +1 @@', b'*** 1,2 ***'])
                 dl = []
                 at = None
